@@ -518,6 +518,10 @@ def run(tier):
     n = util.jobs()
     res = util.run_workers(_w, [(seed * 1000 + i, i) for i in range(n)], dict(binary=binary, budget_s=30 if tier == "quick" else 400), nproc=n)
     dec = res.extra.get("decisive_before", 0) + res.extra.get("decisive_after", 0)
+    if tier == "thorough":
+        # E5(c): the sweeper deleting what the command thread re-creates, under ThreadSanitizer
+        from . import tsan_soup
+        res.merge(tsan_soup.run_soup("C02", seed, 90, "expire"))
     return util.finish("C02", tier, seed, "exploration", res,
                        "A: rounds of 24 keys of all six types given TTLs of 60-400 ms (PX/PEXPIRE/PSETEX) and 1-2 s (EX/EXPIRE/SETEX), "
                        "lock-step with client-side brackets; before the earliest possible deadline the key must be visible with its value "
@@ -527,7 +531,8 @@ def run(tier):
                        "keep the TTL, SET/GETSET/MSET/PERSIST/emptied-and-recreated remove it (key must outlive the old deadline by two "
                        "passes), extension, shortening, RENAME carries it; B: sweeper parked between collect and delete (sync point) while "
                        "a client re-creates / renames onto / appends to the collected keys; C: expiry-index dump, disagreements followed "
-                       "to the client boundary; cell = (phase, family, command, type)" % len(AFTER), t0,
+                       "to the client boundary; thorough: 90 s expire/re-create/rename workload against a ThreadSanitizer build (report blocks "
+                       "counted from the child's log); cell = (phase, family, command, type)" % len(AFTER), t0,
                        extra_cov={"decisive_probes": dec},
                        assumptions=["client and server share CLOCK_MONOTONIC; probes whose bracket straddles the deadline interval are don't-care",
                                     "TTL (seconds) may be rounded in any direction"], min_cells=40)
